@@ -43,6 +43,11 @@ class C05(Check):
 
     def generate(self, rng, tier, shard, nshards):
         def npp(cases):
+            # window and stride that fit a narrow numpy type while their sum does not (a downcast parameter table)
+            for w_, s_, kind in ((100, 50, 'int8'), (200, 100, 'uint8'), (20000, 15000, 'int16'), (90, 60, 'int8'), (100, 120, 'int8'), (130, 127, 'uint8')):
+                for n_ in (0, 1, 40, 260):
+                    yield {'w': w_, 's': s_, 'parent': 'top' if n_ % 2 else 'group', 'parent_node': None if n_ % 2 else windows.PARENTS['group'](rng),
+                           'items': [rng.randint(0, 40) for _ in range(n_)], 'np_params': kind}
             for n, c in enumerate(cases):
                 if n % 5 == 3:
                     c = dict(c, np_params=('int64', 'int32', 'int8', 'uint8', 'int16')[(n // 5) % 5])
